@@ -198,6 +198,9 @@ def check_arith_cast(crate, rep, cfg):
                     loops = b.loops()
                     ok = any(bb in l for l in loops)
                     why = "index inside the loop whose bounds are the clamped [lo, hi]"
+                if not ok and contains_edge_guarded(b, ef, tr, bb, rv["op"]):
+                    ok = True
+                    why = "on the true edge of `(0..bound).contains(&x)` for the same x"
                 if not ok and cmp_range_guarded(b, bb, rv["op"]):
                     ok = True
                     why = "dominated by the edges `x >= 0` and `x < bound` of comparisons on the same value"
@@ -402,6 +405,32 @@ def check_len_agreement(crate, rep, cfg):
         rep.add("C14.LEN", "C14.LEN:slice:string-by-chars#%d" % k, ok, sl.where(bb), "for a string, slice_items receives the collected chars()/graphemes() of the string (element type %s)"
                 % a0[:30] + ("" if ok else " — VIOLATED: positions would count something other than characters"))
     rep.floor("C14.LEN", "string calls of slice_items [%s]" % cfg, k, 1)
+
+
+def contains_edge_guarded(b, ef, tr, bb, op):
+    """bb is dominated by the true edge of `(0..bound).contains(&x)` where x is the value being cast"""
+    src = {(l.kind, l.detail, l.projs) for l in tr.operand(op)}
+    if not src:
+        return False
+    for sb in sorted(b.reachable):
+        if b.term(sb)["k"] != "switch" or not b.dominates(sb, bb) or sb == bb:
+            continue
+        for tgt, fl in ef.facts_for_switch(sb).items():
+            for f in fl:
+                if not (f[0] == "call" and f[3] is True and "Range" in f[1] and f[1].endswith("::contains") and b.dominates(tgt, bb) and tgt != sb):
+                    continue
+                ct = b.term(f[4])
+                tested = {(l.kind, l.detail, tuple(p for p in l.projs if p not in ("&", "deref"))) for l in tr.operand(ct["args"][1])}
+                mine = {(k, d, tuple(p for p in pr if p not in ("&", "deref"))) for k, d, pr in src}
+                if tested != mine:
+                    continue
+                for l in tr.operand(ct["args"][0]):
+                    if l.kind == "agg" and str(l.detail[1]).startswith("std::ops::Range"):
+                        st = b.blocks[l.detail[3]]["s"][l.detail[4]]["rv"]
+                        lo = st["ops"][0]
+                        if lo["k"] == "const" and str(lo.get("v")) == "0":
+                            return True
+    return False
 
 
 def cmp_range_guarded(b, bb, op):
